@@ -10,7 +10,7 @@ def run(tier, rep):
     thorough = tier == "thorough"
     rep.assumptions += [
         "retention is measured as the number of nodes reachable from the root of the k-th delivered record (RawRecord().Raw() and exported links)",
-        "cases repeat identical records (period 1, or 2 with records failing the FINAL_OUTPUT filter) under fixed ancestors, with blank lines / whitespace separators",
+        "cases repeat identical records (period 1, or 2 with records failing the FINAL_OUTPUT filter or failing their transform) under fixed ancestors, with blank lines / whitespace separators",
     ]
     for sep, filt in (("FALSE", "FALSE"), ("FALSE", "TRUE")):
         r = vlib.tlc("MC_Retention", "MC_Retention.cfg", consts={"K": "8" if thorough else "6", "Sep": sep, "Filtered": filt}, workers=1, timeout=600)
@@ -34,6 +34,6 @@ def run(tier, rep):
         rep.violation({"property": "C17", "key": "retention-grows:" + str(ev.get("case")), "kind": "b2",
                        "summary": "%s: the tree reachable from the k-th record grows with k: %s" % (ev.get("case"), sizes[:4] + sizes[-3:]),
                        "case": ev.get("case"), "sizes": sizes})
-    rep.cov["rule"] = ("16 cases over all formats (compact, whitespace/blank-line separators, nested groups, records failing the filter), k = 3000 / "
+    rep.cov["rule"] = ("26 cases over all formats (compact, whitespace/blank-line separators, nested groups, records failing the filter, records whose transform fails), k = 3000 / "
                        "200000 records streamed through the real Transform; sizes probed at k<=16, powers of two, every 1000th; TLC (Trace_Retention) "
                        "requires size_k <= max(size_1..size_8). non-trivial: >=100 deliveries with separators or filtered-out records")
